@@ -1023,7 +1023,12 @@ impl Run {
                     }
                     if let Some(env) = &info.signed_peer_record {
                         match indep_verify(&env.clone().into_protobuf_encoding()) {
-                            RecTruth::Valid { peer: rp, .. } if rp == cpeer => {}
+                            RecTruth::Valid { peer: rp, addrs } if rp == cpeer => {
+                                if addrs.iter().any(|a| names_other_peer(a, &cpeer)) {
+                                    // the statement speaks about listen addresses; the envelope is the peer's own signed statement
+                                    self.labels.insert("reported-own-record-embeds-/p2p/other-address(not asserted)");
+                                }
+                            }
                             RecTruth::Unknown => {}
                             _ => return Err(("C46:reported-signed-record-not-valid-for-peer".into(), dbg(self))),
                         }
@@ -1600,14 +1605,14 @@ pub fn run(ctx: &mut Ctx) {
     ctx.check::<Case>(
         "world",
         "1 identify swarm, 1..5 connections (out/in, several per peer) to 4 of 9 pool identities, 2..12 ops; each message: key in {own, other, missing, empty, garbage, mutated own}, record in {none, valid own, foreign signer, subject != signer, tampered payload/signature, swapped envelope key, wrong domain / payload type, garbage, byte-mutated}, addresses with /p2p/own, /p2p/other, relay and unparsable forms, sent as the identify reply or as a push, with or without settling in between; non-trivial = the case contains a message with exactly one lie AND a fully honest message that was reported with exactly the sent content",
-        ctx.n(10_000, 300_000),
+        ctx.n(10_000, 250_000),
         &case_strategy,
         &run_world,
     );
     ctx.check::<ParseCase>(
         "parse",
         "one identify reply or push (merged into an accepted honest prior) built like in `world`, optionally byte-mutated, mis-framed or replaced by arbitrary bytes, through recv_identify/recv_push -> Handler::handle_incoming_info -> multiaddr_matches_peer_id filter (cfg(libp2p_verif) shims); never panics; non-trivial = unmodified message with exactly one lie, or fully honest message accepted with exactly the sent content",
-        ctx.n(40_000, 1_500_000),
+        ctx.n(40_000, 1_000_000),
         &parse_case,
         &run_parse,
     );
